@@ -27,6 +27,16 @@ def chunk_sizes(n, ncpu):
     return [len(c) for c in np.array_split(np.arange(n), ncpu)]
 
 
+def boundary_seed(k, typical):
+    """seeds of the RandomStateService handed to parallelize / do_trials: the boundary values of the legal range
+    [0, 2**32 - 1] (0 is falsy, 2**32 - 1 is the largest seed numpy accepts) next to ordinary ones"""
+    return [0, 2**32 - 1, 1, typical][k % 4]
+
+
+def seed_class(seed):
+    return {0: 'zero', 1: 'one', 2**32 - 1: 'max'}.get(seed, 'none' if seed is None else 'ordinary')
+
+
 def entry(where, pid, task, *actions):
     return {'where': where, 'pid': pid, 'task': task, 'actions': [list(a) for a in actions]}
 
@@ -225,6 +235,10 @@ def _check_outcome(case, out, what):
             return 'spurious-error', '%s raised %s: %s' % (what, out.get('etype'), out.get('msg'))
         view = lambda rr: [(r[0], r[1], r[3]) for r in rr]   # noqa
         for c, (got, ref) in enumerate(zip(out['res'], out['ref'])):
+            if view(got) != view(ref) and c == 0:
+                return 'nondeterministic', ('%s: the first call (seed %r) returned %r, a second, identical call on a newly built argument list '
+                                            'returned %r (results are not deterministic for a given seed and worker count)' % (
+                                                what, case['seeds'][0], view(got)[:6], view(ref)[:6]))
             if view(got) != view(ref):
                 return 'depends-on-earlier-call', (
                     '%s: call #%d (seed %r) returned %r, but a call with a newly built argument list and the same seed returns %r '
@@ -414,7 +428,7 @@ def run(ctx):
     ctx.rule = ('real processes under a %.0f s watchdog: ncpu 1..%d x tasks 0..%d x every assignment of {fast, slow} to the '
                 'processes (master included); faults: every (child, task index | after-result-queued, kind in {raise, exit 0, '
                 'exit 3, exit before/after the result reached the pipe}) x 3 completion orders, exhaustive up to ncpu %d / %d tasks, '
-                'random beyond; repeated calls on one args_list object (seeds 42,42,7,42); interactive-session runs; large fault-free runs '
+                'random beyond; rss seeds cycle through 0, 2**32-1, 1 and ordinary values; repeated calls on one args_list object; interactive-session runs; large fault-free runs '
                 '(20000..100000 tasks); a case is distinct by (api, ncpu, n, plan, slow set, seeds, interactive)' % (
                     W, ctx.n(4, 8), ctx.n(6, 20), ctx.n(4, 5), ctx.n(6, 10)))
     ctx.trusted_base += ['correspondence harness harness/props/c09.py + harness/par_fixtures.py (watchdog, hook plan)',
@@ -457,7 +471,8 @@ def run(ctx):
     NC, NT = ctx.n(4, 8), ctx.n(6, 20)
     for ncpu in range(1, NC + 1):
         for n in range(NT + 1):
-            seed = 1000 + 37 * n + ncpu
+            seed = boundary_seed(n + 2 * ncpu, 1000 + 37 * n + ncpu)
+            ctx.count('seed-class:' + seed_class(seed), 2 ** ncpu)
             g = []
             for bits in itertools.product([0, 1], repeat=ncpu):
                 slow = [p for p in range(ncpu) if bits[p]]
@@ -483,17 +498,19 @@ def run(ctx):
     # Analysis.do_trials on a stub analysis
     for ncpu in range(1, NC + 1):
         for n in (1, 2, 5, ctx.n(7, 20)):
-            g = [make_case(ncpu, n, seed=77 + n, api='do_trials', variant='fast')]
+            sd = boundary_seed(n + ncpu, 77 + n)
+            ctx.count('seed-class:' + seed_class(sd), 3 if ncpu > 1 else 1)
+            g = [make_case(ncpu, n, seed=sd, api='do_trials', variant='fast')]
             if ncpu > 1:
-                g.append(make_case(ncpu, n, slow=[1], seed=77 + n, api='do_trials', variant='slow=child1'))
-                g.append(make_case(ncpu, n, slow=[0] + list(range(2, ncpu)), seed=77 + n, api='do_trials', variant='slow=others'))
+                g.append(make_case(ncpu, n, slow=[1], seed=sd, api='do_trials', variant='slow=child1'))
+                g.append(make_case(ncpu, n, slow=[0] + list(range(2, ncpu)), seed=sd, api='do_trials', variant='slow=others'))
             groups.append(g)
 
     # the same args_list object handed to parallelize again and again (fresh rss of the listed seeds): every call must
     # return what a call on a newly built argument list returns (the tasks draw from the rss and return the draw)
     for ncpu in range(1, NC + 1):
         for n in (1, 6, NT):
-            groups.append([{'api': 'repeat', 'ncpu': ncpu, 'n': n, 'seeds': [42, 42, 7, 42], 'tl': (n == 6), 'plan': [],
+            groups.append([{'api': 'repeat', 'ncpu': ncpu, 'n': n, 'seeds': [0, 0, 7, 0] if n == 6 else [42, 42, 2**32 - 1, 42], 'tl': (n == 6), 'plan': [],
                             'msleep': {}, 'boom': [], 'seed': None, 'logs': False, 'variant': 'repeat'}])
     # interactive session: progress bar shown, the workers report every finished task through the status queue
     for ncpu in range(1, NC + 1):
